@@ -79,6 +79,16 @@ def make_wires(quick):
         wire = src.send(all_specs[spec_name])
         wires.append(dict(id='agent:%s%s:%s' % (prof_name, '+' + extra if extra else '', spec_name), profile=prof_name, extra=extra,
                           wire=wire, payload=all_specs[spec_name]['payload'], source='agent', scope={0: 1, -1: 1}, targets=[1]))
+    # BCBs with two and three targets from the real agent, both key modes, acceptance on and off
+    tt = {7: 2, 193: 4}
+    for (prof_name, types, accept) in (('enc0-a128gcm', (1, 7), True), ('enc0-a128gcm', (1, 7, 193), True),
+                                       ('enc-kw-a256gcm', (1, 7, 193), True), ('enc-kw-a256gcm', (1, 7), False),
+                                       ('enc0-a128gcm', (1, 7, 193), False)):
+        src = sd.make_source(sd.PROFILES[prof_name], tgt_types=types, ivs=IVS)
+        wire = src.send(all_specs['S1'])
+        wires.append(dict(id='agent:%s:S1:%dtargets:accept-%s' % (prof_name, len(types), 'on' if accept else 'off'), profile=prof_name,
+                          extra=None, accept=accept, wire=wire, payload=all_specs['S1']['payload'], source='agent',
+                          scope={0: 1, -1: 1}, targets=[1] + [tt[ty] for ty in types[1:]]))
     plain = sd.SecNode(sd.SRC_ID)
     prof = sd.PROFILES['enc0-a128gcm']
     (kid, key, alg, _ops) = prof['key']
@@ -88,7 +98,22 @@ def make_wires(quick):
                                        addl_protected=addl, ivs=IVS)
         wires.append(dict(id='built:%d:%s' % (idx, spec_name), profile='enc0-a128gcm', extra=None, wire=wire,
                           payload=all_specs[spec_name]['payload'], source='built', scope=scope, targets=targets))
+    for ent in wires:
+        spec = all_specs[ent['id'].split(':')[2]]
+        ent['plain'] = {1: spec['payload']}
+        for blk in spec.get('blocks', ()):
+            ent['plain'][blk['num']] = bytes(blk['data'])
+        accept = ent.get('accept')
+        ent['accepting'] = True if accept is None else bool(accept)
     return wires
+
+
+def expect_payload_hex(ent):
+    ''' data of block 1 an application sees after successful processing: the plaintext at an acceptor, the octets
+    received at a node that only verifies (accept_after_verify off) '''
+    if ent.get('accepting', True) or 1 not in ent['targets']:
+        return ent['payload'].hex()
+    return wire_blocks(ent['wire'])[1][4].hex()
 
 
 def wire_blocks(wire):
@@ -126,7 +151,7 @@ def suite_structure(chk, wires, batch):
                     except Exception as err:
                         plain = None
                         detail = 'AES-GCM under the model Enc_structure: %s' % err.__class__.__name__
-                    want = ent['payload'] if tgt[1] == 1 else None
+                    want = ent['plain'].get(tgt[1])
                     if plain is None or (want is not None and plain != want):
                         okay = False
             chk.case(ident=('structure', ent['id']), nontrivial=True)
@@ -167,8 +192,9 @@ def oracle(suite, ent, case, cls, out, replay):
     allres = res + direct.get('bib', [])
     delivered = out['delivered']
     plain_hex = ent['payload'].hex()
+    good_hex = expect_payload_hex(ent)
     payload_is_target = 1 in ent['targets']
-    pay_ok = delivered and (out['payload'] == plain_hex or not payload_is_target)
+    pay_ok = delivered and (out['payload'] == good_hex or not payload_is_target)
     released = payload_is_target and direct.get('payload') == plain_hex and len(ent['payload']) > 0 and single_target(case['alt'])
     if klass == 'must_fail':
         if delivered:
@@ -201,12 +227,12 @@ def oracle(suite, ent, case, cls, out, replay):
         routing_same = base.primary_same(ent['wire'], case['alt'])
         if direct.get('error') is not None and not routing_same:
             suite.count('must_pass_undecodable_after_primary_change', case['kind'])
-        elif not verified or (payload_is_target and direct.get('payload') != plain_hex) or (routing_same and not (delivered and pay_ok)):
+        elif not verified or (payload_is_target and direct.get('payload') != good_hex) or (routing_same and not (delivered and pay_ok)):
             chk.fail(signature='C16 / alteration outside the authenticated context makes decryption fail or changes the recovered data',
                      what='alteration %s leaves ciphertext, context, IV and key unchanged but: delivered=%r payload_ok=%r verify=%r recovered=%s' % (
                          case['label'], delivered, pay_ok, allres, direct.get('payload')), replay_obj=replay)
     elif klass == 'either':
-        if delivered and payload_is_target and out['payload'] != plain_hex:
+        if delivered and payload_is_target and out['payload'] != good_hex:
             chk.fail(signature='C16 / delivered data differs from the original plaintext',
                      what='alteration %s: delivered payload %s' % (case['label'], out['payload']), replay_obj=replay)
     suite.count('outcome', '%s/%s' % (klass, 'delivered' if delivered else ('sec_failure' if out['sec_failure'] else 'not_delivered')))
@@ -219,31 +245,34 @@ def suite_baseline(suite, wires):
     observations = {}
     for ent in wires:
         prof = sd.PROFILES[ent['profile']]
-        extra = sd.PROFILES[ent['extra']] if ent.get('extra') else None
         blocks = wire_blocks(ent['wire'])
         replay = dict(wire_hex=ent['wire'].hex(), alt_hex=ent['wire'].hex(), profile=ent['profile'], extra=ent.get('extra'),
-                      label='unaltered', payload_hex=ent['payload'].hex(), wire_id=ent['id'], targets=ent['targets'])
+                      label='unaltered', payload_hex=ent['payload'].hex(), wire_id=ent['id'], targets=ent['targets'],
+                      accept=ent.get('accept'), plain={str(k): v.hex() for (k, v) in ent['plain'].items()})
         chk.case(ident=('baseline', ent['id']), nontrivial=True,
-                 sample=dict(suite='baseline', wire=ent['id'], plaintext_len=len(ent['payload']), wire_btsd_len=len(blocks[1][4])))
+                 sample=dict(suite='baseline', wire=ent['id'], plaintext_len=len(ent['payload']), wire_btsd_len=len(blocks[1][4]),
+                             targets=ent['targets']))
         n_bcb = sum(1 for blk in blocks.values() if blk[0] == SEC_TYPE)
         if n_bcb != 1:
             chk.fail(signature='C16 / source did not add exactly one BCB', what='%s: %d BCBs' % (ent['id'], n_bcb), replay_obj=replay)
             continue
-        if 1 in ent['targets']:
-            on_wire = blocks[1][4]
-            plain = ent['payload']
+        for tnum in ent['targets']:
+            on_wire = blocks[tnum][4]
+            plain = ent['plain'][tnum]
             if on_wire == plain or len(on_wire) != len(plain) + sd.GCM_TAG_LEN or (len(plain) >= 4 and plain in on_wire):
                 chk.fail(signature='C16 / target data on the wire is not ciphertext',
-                         what='%s: wire BTSD %s for plaintext %s' % (ent['id'], on_wire.hex()[:80], plain.hex()[:80]), replay_obj=replay)
+                         what='%s block %d: wire BTSD %s for plaintext %s' % (ent['id'], tnum, on_wire.hex()[:80], plain.hex()[:80]), replay_obj=replay)
             suite.count('plaintext_len', len(plain))
-        good = sd.make_receiver(prof, extra=extra)
+        good = sd.receiver_from_spec(base.recv_spec(ent))
         out = good.recv(ent['wire'])
         vd = good.verify_direct(ent['wire'])
-        if not (out['delivered'] and out['payload'] == ent['payload'] and vd['bcb'] == [None] and vd['payload'] == ent['payload']):
+        want_hex = expect_payload_hex(ent)
+        if not (out['delivered'] and out['payload'] is not None and out['payload'].hex() == want_hex and vd['bcb'] == [None]
+                and vd['payload'].hex() == want_hex):
             chk.fail(signature='C16 / acceptor with the key does not recover the original plaintext',
                      what='%s: delivered=%r payload=%r verify_bcb=%r reason=%r' % (ent['id'], out['delivered'], out['payload'], vd['bcb'], out['reason']),
                      replay_obj=replay)
-        bad = sd.make_receiver(prof, wrong_key=True, extra=extra)
+        bad = sd.receiver_from_spec(base.recv_spec(ent, wrong_key=True))
         outb = bad.recv(ent['wire'])
         vdb = bad.verify_direct(ent['wire'])
         chk.case(ident=('wrongkey', ent['id']), nontrivial=True)
@@ -254,28 +283,29 @@ def suite_baseline(suite, wires):
                          ent['id'], outb['delivered'], outb['sec_failure'], vdb['bcb'], vdb['payload'].hex()[:60] if vdb['payload'] is not None else None),
                      replay_obj=dict(replay, wrong_key=True))
         # a node that only verifies (accept_after_verify off, the default): what does it deliver?
-        if ent['source'] == 'agent' and not ent.get('extra') and 1 in ent['targets']:
+        if ent['source'] == 'agent' and not ent.get('extra') and ent.get('accept') is None:
             ver = sd.make_receiver(prof, accept=False)
             outv = ver.recv(ent['wire'])
             observations[ent['id']] = dict(delivered=outv['delivered'],
                                            data=('plaintext' if outv['payload'] == ent['payload'] else
                                                  ('ciphertext' if outv['payload'] == blocks[1][4] else 'other')) if outv['delivered'] else None)
         suite.count('baseline', ent['profile'])
+        suite.count('targets_per_bcb', len(ent['targets']))
+        suite.count('accept_after_verify', str(ent.get('accept')))
     suite.stats['accept_after_verify_off'] = observations
 
 
 # --------------------------------------------------------------------------- corpus / replay
 
 def run_one(rep):
-    prof = sd.PROFILES[rep['profile']]
-    extra = sd.PROFILES[rep['extra']] if rep.get('extra') else None
-    node = sd.make_receiver(prof, wrong_key=bool(rep.get('wrong_key')), extra=extra)
+    node = sd.receiver_from_spec(base.recv_spec(rep, wrong_key=rep.get('wrong_key')))
     wire = bytes.fromhex(rep['wire_hex'])
     alt = bytes.fromhex(rep['alt_hex'])
     out = node.recv(alt)
     vd = node.verify_direct(alt)
     ent = dict(wire=wire, payload=bytes.fromhex(rep['payload_hex']), profile=rep['profile'], extra=rep.get('extra'),
-               id=rep.get('wire_id', 'replay'), targets=rep.get('targets', [1]))
+               id=rep.get('wire_id', 'replay'), targets=rep.get('targets') or [1], accept=rep.get('accept'),
+               accepting=(True if rep.get('accept') is None else bool(rep.get('accept'))))
     cls = combined_class(ent, alt) if alt != wire else ('unaltered', '')
     out['direct'] = dict(bib=vd['bib'], bcb=vd['bcb'], error=vd['error'], payload=(vd['payload'].hex() if vd['payload'] is not None else None))
     out['payload'] = out['payload'].hex() if out['payload'] is not None else None
@@ -290,7 +320,7 @@ def check_one(suite, rep):
         if out['delivered'] or out['direct']['bcb'] != [sd.FAILED_SEC]:
             chk.fail(signature='C16 / wrong key: accepted, plaintext released or failure not reported', what='replay', replay_obj=rep)
     elif cls[0] == 'unaltered':
-        if not (out['delivered'] and out['payload'] == rep['payload_hex'] and out['direct']['bcb'] == [None]):
+        if not (out['delivered'] and out['payload'] == expect_payload_hex(ent) and out['direct']['bcb'] == [None]):
             chk.fail(signature='C16 / acceptor with the key does not recover the original plaintext', what='replay', replay_obj=rep)
     else:
         oracle(suite, ent, case, cls, out, rep)
@@ -357,7 +387,7 @@ def main():
         print('PENDING-FINDING (gated, reported to the coordinator): %s  [%d input(s); first: %s]' % (sig, info['count'], info['what'][:300]))
     chk.finish(
         rule=('for each of %d bundles (BCB applied by the real agent: Encrypt0 A128GCM/A256GCM direct key, Encrypt + AES-KW A128/A256, one with a '
-              'BIB as well; plaintext lengths 0, 1, 11, 24, 300; or by the independent source with 7 AAD scopes / targets incl. two targets): '
+              'BIB as well, BCBs with two and three targets in both key modes with accept_after_verify on and off; plaintext lengths 0, 1, 11, 24, 300; or by the independent source with 7 AAD scopes / targets incl. two targets): '
               'wire BTSD is ciphertext (plaintext length + 16, not containing the plaintext), accepted BTSD == plaintext, wrong key fails and '
               'releases nothing; then every single-field alteration (cbor2 decode, one item changed/dropped/added, CRCs re-fixed, EID-syntax '
               'variants with and without CRC re-fix) and %s single-bit flips, through the real receive path and verify_bcb; distinct = '
